@@ -22,7 +22,7 @@ THEOREMS = ["C19_global_view_exact", "C19_from_modules_exact", "C19_spanned_exac
             "C19_filter_edges_exact", "C19_first_hop_of_shortest_path", "C19_script_worlds", "C19_module_ids_distinct", "C19_history_exact"]
 QUICK_N = 4000; THOROUGH_N = 150000
 CLAIM = dict(
-    text="Machine-checked (Coq 8.16, axiom-free) for a function-by-function model of topology.rs as it is now (both work lists FIFO): for EVERY gate graph whose chains stay within the supported 16 hops - trees, stars, rings, multi-edges, self-loops, disconnected parts, transit gates anywhere - the global view has one node per module in module order and, per module, exactly one edge per endpoint gate in gate order, labelled with that gate and the far gate of its chain and leading to the node of the far gate's owner (from_modules on any duplicate-free module list: the same, restricted to chains ending inside the list); the view spanned from ANY root terminates, contains exactly the modules reachable from the root, each once, root first, with the same exact edges - proved via the invariant that every index handed to a pending module is its position in nodes++pending; connected() is true iff every node reaches every node (the recursive visit is a DFS whose depth is bounded by the node count); bidirectional() is true iff every edge u->v is answered by an edge v->u; filter_nodes keeps exactly the selected nodes in order and exactly the edges among them, re-indexed to the same modules (so a filtered exact view is the exact view of the kept modules); filter_edges keeps exactly the selected edges; dijkstra never panics for a source that is a node, terminates, and maps every reachable node other than the source to an edge leaving the source that starts a walk no walk undercuts (BFS layering invariant with lazy deletion), and maps neither the source nor unreachable nodes. Histories: a script interleaves queries with wiring operations (connect of existing gates, new gates, at build time and from a module at run time); C19_history_exact shows that every view query of every history returns the exact view of the gate graph built by the operations before it (the graph stays closed, and short when declared chains have at most 16 hops), and the differential runs and the monitor judge each query against the graph of that moment. Refuted by evaluation for the pinned code: LIFO dijkstra on the triangle, LIFO spanned on a root with two neighbours. The model is tied to des by differential runs of the extracted model against the real Sim/Gate/Topology API on generated gate graphs (including chains of 17..22 hops, where the model reproduces the 16-hop cut-off) and by an independent monitor that recomputes node sets, edge multisets, reachability and BFS distances from the wiring the script declares.",
+    text="Machine-checked (Coq 8.16, axiom-free) for a function-by-function model of topology.rs as it is now (both work lists FIFO): for EVERY gate graph whose chains stay within the supported 16 hops - trees, stars, rings, multi-edges, self-loops, disconnected parts, transit gates anywhere - the global view has one node per module in module order and, per module, exactly one edge per endpoint gate in gate order, labelled with that gate and the far gate of its chain and leading to the node of the far gate's owner (from_modules on any duplicate-free module list: the same, restricted to chains ending inside the list); the view spanned from ANY root terminates, contains exactly the modules reachable from the root, each once, root first, with the same exact edges - proved via the invariant that every index handed to a pending module is its position in nodes++pending; connected() is true iff every node reaches every node (the recursive visit is a DFS whose depth is bounded by the node count); bidirectional() is true iff every edge u->v is answered by an edge v->u; filter_nodes keeps exactly the selected nodes in order and exactly the edges among them, re-indexed to the same modules (so a filtered exact view is the exact view of the kept modules); filter_edges keeps exactly the selected edges; dijkstra never panics for a source that is a node, terminates, and maps every reachable node other than the source to an edge leaving the source that starts a walk no walk undercuts (BFS layering invariant with lazy deletion), and maps neither the source nor unreachable nodes. Histories: a script interleaves queries with wiring operations (connect of existing gates, new gates, at build time and from a module at run time); C19_history_exact shows that every view query of every history returns the exact view of the gate graph built by the operations before it (the graph stays closed, and short when declared chains have at most 16 hops), and the differential runs and the monitor judge each query against the graph of that moment. Module activity is no input of any view: the model's world has no activity field (operation ODown changes nothing), and at run time the runner takes modules down (shutdown(), shutdow_and_restart_in with the queries inside the down time, a panic caught by the stereotype, is_active() verified false) before querying from a module that is up: the views must still be the exact views of the gate graph. Refuted by evaluation for the pinned code: LIFO dijkstra on the triangle, LIFO spanned on a root with two neighbours. The model is tied to des by differential runs of the extracted model against the real Sim/Gate/Topology API on generated gate graphs (including chains of 17..22 hops, where the model reproduces the 16-hop cut-off) and by an independent monitor that recomputes node sets, edge multisets, reachability and BFS distances from the wiring the script declares.",
     note="Trusted: Coq kernel; extraction (ExtrOcamlBasic only) cross-checked in-Coq by vm_compute on a sample each run; the harness and generator bound the tie to the code. The gate layer enters as an abstract view (module = ordered gate list, endpoint = the gate sequence path_iter visits; C08 proves path_iter walks the wired chain). Hypotheses: short (<= 16 hops; only for from_modules) and closed (far ends are gates of modules of the world). Chains beyond 16 hops are outside the quantifier: from_modules then reports a transit gate as the end (recorded in fixes/F13.md, not claimed). bidirectional() tests node pairs, which coincides with the gate-level wording of its documentation on every view and node-filtered view; after filter_edges on multi-edges the two readings differ (Refuted/C19.v, not an observation point of C19). Module identity: the model names a module by its index, the code by its ModuleId (from_modules/spanned look chain ends up by id); that ids of one simulation are pairwise distinct is proved for the wrapping 16-bit counter (C19_module_ids_distinct) and checked on the real ids of every script, with the process-global counter placed at 0xff, mid-range, below 0xff and within a few ids of the 2^16 wrap (a module whose id is ModuleId::NULL = 0 behaves like any other). A Topology object is a value: it does not follow later changes of the gate graph (derived queries answer for the snapshot). des has no public disconnect (Gate::dissolve_paths is crate-private and only runs when a module is dropped), so gate graphs only grow within a simulation; modules are not added after the first query. Every runner process builds and queries about a thousand simulations back to back, so state surviving from one simulation to the next in a static would show up as well. Node attachments, edge-cost attachments and the dot/svg export are not modelled.",
     technique="Coq proofs over an executable model (loop invariants: index prediction for spanned, DFS closure for connected, BFS layering for dijkstra) + differential correspondence check + property monitor",
     design="6/C19")
@@ -34,7 +34,9 @@ RULE = ("scripts declare 1..14 modules with gates in shuffled creation order and
         " bidirectional, filter_nodes with random masks, filter_edges, edges_for; half of the scripts are histories: some chains are"
         " connected and some gates created (SimBuilder::gate / ModuleRef::create_gate / Spawner::gate) only after a first view"
         " was taken, views are queried before, between and after these steps, and from a random point on the history continues"
-        " at run time inside a module (Topology::current(), des::net::globals()); every script also fixes where the process-global"
+        " at run time inside a module (Topology::current(), des::net::globals()) while up to three other modules are down"
+        " (shutdown(), shutdow_and_restart_in with the queries inside the down time, a panic caught by the stereotype; the runner"
+        " verifies is_active() == false before the first run-time query); every script also fixes where the process-global"
         " 16-bit ModuleId counter stands when the simulation is built (fresh process 0xff, mid-range, within a few ids of the 2^16"
         " wrap so that the modules' ids straddle it, below 0xff) and the runner reports whether the ids are pairwise distinct;"
         " non-trivial = distinct script with a view of"
@@ -88,10 +90,10 @@ def parse(script):
         elif t in (9, 10):
             l, j = _take_lp(script, i + 1)
             qs.append([t, len(l)] + l); i = j
-        elif t == 11:
+        elif t in (11, 13):
             if i + 2 >= len(script):
                 break
-            qs.append([11, script[i + 1], script[i + 2]]); i += 3
+            qs.append([t, script[i + 1], script[i + 2]]); i += 3
         elif t == 12:
             if i + 1 >= len(script):
                 break
@@ -224,6 +226,7 @@ def pretty(script):
         elif q[0] == 10: parts.append("CONNECT " + "-".join("m%d.g%d" % g for g in chain_of(q)))
         elif q[0] == 11: parts.append("NEW GATE on m%d%s" % (q[1], " (spawner)" if q[2] % 2 else ""))
         elif q[0] == 12: parts.append("RUN TIME (in m%d):" % (q[1] % w.nm if w.nm else 0))
+        elif q[0] == 13: parts.append("[m%d is %s during the run-time part]" % (q[1], ["shut down", "waiting for a restart", "down after a caught panic"][min(q[2], 255) % 3]))
     return s + "; history: " + ", ".join(parts)
 
 
@@ -245,7 +248,7 @@ def records(script, out):
             for _ in range(nn):
                 j += 7 if out[j] == 1 else 1
             ln = j - i
-        elif t in (4, 5, 11, 12, 13):
+        elif t in (4, 5, 11, 12, 13, 14):
             ln = 2
         elif t == 6:
             ln = 2 + 6 * out[i + 1]
@@ -369,6 +372,10 @@ def monitor_views(script, out, w):
             if r != exp:
                 return "malformed output: phase switch reported %s, expected %s" % (r, exp)
             rt = rt or bool(exp[1])
+            continue
+        if t == 13:
+            if r != [14, 0]:
+                return "malformed output: activity declaration reported %s" % r
             continue
         msg = monitor_query(tr, q, r)
         if msg:
@@ -501,6 +508,7 @@ def _mechanisms(script, out, m):
     except (ValueError, IndexError):
         return m
     rt = False
+    down = {}
     viewed = False          # some view of the gate graph was taken already
     changed = False         # ... and the gate graph has changed since
     changed_rt = False      # a connect at run time since the last run-time look at the global view
@@ -522,7 +530,19 @@ def _mechanisms(script, out, m):
         if t == 12:
             if r == [13, 1]:
                 rt = True; m.add("runtime_phase")
+                down = {d: k for d, k in down.items() if d != q[1] % w.nm}      # the executing module stays up
             continue
+        if t == 13:
+            d = min(q[1], 255)
+            if not rt and d < w.nm and d not in down:
+                down[d] = min(q[2], 255) % 3
+            continue
+        if rt and down and t in (1, 2, 9):
+            for k in set(down.values()):
+                m.add(["query_with_module_shut_down", "query_with_module_waiting_for_restart", "query_after_caught_panic"][k])
+            if t == 2 and q[1] in down: m.add("spanned_from_down_root")
+            if t == 9 and any(min(x, 255) in down for x in q[2:]): m.add("from_modules_with_down_module")
+        if rt and down and t == 3 and tr.nodes & set(down): m.add("dijkstra_with_down_module_in_view")
         if t in (1, 2, 6, 7, 9):
             exp = tr.expect(q)
             if exp is None or r[0] != 1:
@@ -795,13 +815,21 @@ def gen_history(rng, nm, counts, chains):
             q.append([6, ((1 << 62) - 1) & ~(1 << rng.randrange(nm))]); q.append([4])
         return q
 
+    def downs():
+        """some modules are down during the run-time part (shut down, waiting for a restart, caught panic)"""
+        if rng.random() < 0.2:
+            return []
+        ds = rng.sample(range(nm), rng.randint(1, max(1, min(3, nm - 1))))
+        return [[13, d if rng.random() < 0.95 else nm + 1, rng.randrange(3)] for d in ds]
+
     ops = []
     created = list(hdr_counts)
-    switch_at = rng.randint(0, len(late)) if rng.random() < 0.5 else None
+    switch_at = rng.randint(0, len(late)) if rng.random() < 0.6 else None
     for k, (mode, c) in enumerate(late):
         if rng.random() < 0.85:
             ops += look()
         if switch_at == k:
+            ops += downs()
             ops.append([12, rng.randrange(nm + 2)])
             if rng.random() < 0.6: ops += look()
         for (m, g) in sorted(c, key=lambda x: x[1]):
@@ -814,7 +842,11 @@ def gen_history(rng, nm, counts, chains):
             ops.append(connect_op(0, hdr[0][1]))                                # gates in use already: not wired
         ops.append(connect_op(mode, c))
     if switch_at == len(late):
+        ops += downs()
         ops.append([12, rng.randrange(nm + 2)])
+        ops += look()
+        if nm and rng.random() < 0.5:
+            ops += [[2, rng.randrange(nm)], [3, rng.randrange(nm)], [4]]
     ops += look()
     if rng.random() < 0.3:
         ops += gen_queries(rng, nm, counts)[:6]
